@@ -90,6 +90,26 @@ func (b *WriteBuffer) Drain() []RecordBatch {
 	return drained
 }
 
+// Prepend puts batches back at the front of the buffer, ahead of anything that
+// was appended after they were drained, and restores the size accounting. It is
+// used when a flush fails after Drain so the batches are retried by the next
+// flush instead of being dropped.
+func (b *WriteBuffer) Prepend(batches []RecordBatch) {
+	if len(batches) == 0 {
+		return
+	}
+	b.mu.Lock()
+	defer b.mu.Unlock()
+	merged := make([]RecordBatch, 0, len(batches)+len(b.batches))
+	merged = append(merged, batches...)
+	merged = append(merged, b.batches...)
+	b.batches = merged
+	for i := range batches {
+		b.sizeBytes += len(batches[i].Bytes)
+		b.messageCount += int(batches[i].MessageCount)
+	}
+}
+
 // RecordsFrom returns the raw bytes of buffered batches needed to serve a read
 // starting at offset, concatenated, non-destructively. A batch is included when
 // its last offset (BaseOffset+LastOffsetDelta) is >= offset, i.e. the batch that
